@@ -567,8 +567,9 @@ func runC20(c *Check) {
 				return false
 			}
 			// index is a range index: phi(-1 | ↺+1) + 1
+			// … or a counter: phi(0 | ↺+1)
 			s := t.Args[1].String()
-			return strings.Contains(s, "-1") && strings.Contains(s, "+ 1")
+			return strings.Contains(s, "+ 1") && strings.Contains(s, "φ(") && !strings.Contains(s, "- 1") && (strings.Contains(s, "-1") || strings.Contains(s, "0"))
 		}, 2)
 		if inOrder {
 			c.OK("C20-R4", "GetNextBatch ⟂ append-in-blob-order", fn, p.InstrPos(an.In), "transactions are appended while ranging over the retrieved blobs in ascending index order", true)
